@@ -414,6 +414,11 @@ bool Instance::configure_tx_txin() {
                 fprintf(stderr, "sig script did not contain a push op as expected\n");
                 return false;
             }
+            // (BIP141) the scriptSig must be exactly one canonical push of the redeem script: nothing before or after it, no other push form
+            if (scriptSig != (CScript() << pushval)) {
+                fprintf(stderr, "the sig script of a P2SH-wrapped witness program must be exactly one push of the redeem script (witness malleated)\n");
+                return false;
+            }
             validation = CScript(pushval.begin(), pushval.end());
             hashsrc = Value(pushval);
             CScript::const_iterator it = scriptPubKey.begin();
